@@ -4,11 +4,13 @@ package sim
 // per worker; the driver (cmd/simcheck) starts many with different seeds.
 
 import (
+	"crypto/sha256"
 	"encoding/json"
 	"flag"
 	"fmt"
 	"os"
 	"path/filepath"
+	"runtime"
 	"sort"
 	"strings"
 	"testing"
@@ -28,6 +30,7 @@ var (
 	flagWorkers = flag.Int("verif.workers", 1, "number of workers")
 	flagChecks  = flag.Int("verif.checks", 25, "rapid checks per batch")
 	flagMaxBat  = flag.Int("verif.maxbatches", 0, "stop after this many batches (0 = budget only)")
+	flagDigests = flag.String("verif.digests", "", "write one digest line per simulated run to this file (determinism self-test)")
 )
 
 // Violation is what an oracle reports.
@@ -115,8 +118,18 @@ func newStats() *Stats {
 
 func (s *Stats) Probe(name string) { s.Probes[name]++ }
 
+var digestFile *os.File
+
 func (s *Stats) AddResult(r *Result) {
 	s.CLIRuns++
+	if digestFile != nil {
+		h := sha256.New()
+		fmt.Fprintf(h, "%s|%s|%v|%v|%q|%q|", r.Sig, r.Err, r.Hang, r.Panic != "", r.Stdout, r.Stderr)
+		for _, e := range r.Events {
+			fmt.Fprintf(h, "%d:%d:%s:%s:%d;", e.Seq, e.TNS, e.Actor, e.Ev, e.N)
+		}
+		fmt.Fprintf(digestFile, "%x %d events, sim %d ns\n", h.Sum(nil)[:12], len(r.Events), r.SimNS)
+	}
 	s.SimNS += r.SimNS
 	if r.Sig != "" {
 		s.Sigs[r.Sig] = true
@@ -194,6 +207,11 @@ func Main(t *testing.T, h Hooks) {
 		os.Setenv("VERIF_REAL_GIT", rg)
 	}
 	warmExitErrors()
+	// One OS thread runs Go code: between two events at the simulated
+	// boundary git-sizer's goroutines run to quiescence in the Go
+	// scheduler's deterministic FIFO order (measured by the determinism
+	// self-test, not assumed).
+	runtime.GOMAXPROCS(1)
 
 	st := newStats()
 	st.Property, st.Tier, st.Seed, st.Worker = p.ID, *flagTier, *flagSeed, *flagWorker
@@ -209,6 +227,10 @@ func Main(t *testing.T, h Hooks) {
 		os.Exit(3)
 	}
 
+	if *flagDigests != "" {
+		digestFile, _ = os.Create(*flagDigests)
+		defer digestFile.Close()
+	}
 	start := time.Now()
 	defer func() {
 		st.WallS = time.Since(start).Seconds()
